@@ -740,6 +740,11 @@ func (r *yieldRewriter) rewriteBreakContinues(body *ast.BlockStmt) {
 				r.assert(n.Label == nil, n, "continue with label not supported")
 				return X.Return(r.CallContinue())
 			case token.GOTO:
+				if funcLitStack.top() != nil {
+					// goto in generator body has been rejected in pass2,
+					// here is an ordinary closure nested in yield func
+					return
+				}
 				r.assert(false, n, "goto not supported")
 			case token.FALLTHROUGH:
 				if inSwitch() {
